@@ -1,16 +1,298 @@
-//! Nested shapes (one level of nesting) with probe wrappers around the inner combinators.
-use crate::gen::{Plan, Profile};
-use crate::roots::Root;
-use crate::world::World;
+//! Nested shapes (one level of nesting). Inner combinators are wrapped in probes
+//! (`Probe` / `SProbe`) which log their polls and the wakers they are handed, so the
+//! notification invariant, poll discipline and selective polling can be checked at
+//! the boundary between an outer and an inner combinator.
 
-pub fn name(_kind: u32) -> &'static str {
-    "todo"
+use crate::gen::{fut_script, stream_script, LeafPlan, Plan, Profile, Shape};
+use crate::leaf::{Probe, SProbe, SimFut, SimStream, Val};
+use crate::roots::{AggRoot, FutRoot, Root, StreamRoot};
+use crate::world::{with, Ev, Family, NodeId, World, NO_NODE, ROOT};
+use futures_concurrency::future::{FutureExt as _, Join, Race, RaceOk, TryJoin};
+use futures_concurrency::stream::{Chain, Merge, Zip};
+use Family::*;
+
+/// Tree description of a shape: `L` = scripted leaf.
+#[derive(Clone)]
+pub enum T {
+    L,
+    N(Family, Vec<T>),
+}
+use T::{L, N};
+
+fn n2(f: Family) -> T {
+    N(f, vec![L, L])
+}
+
+struct Spec {
+    name: &'static str,
+    needs_alloc: bool,
+    tree: fn() -> T,
+}
+
+const SPECS: &[Spec] = &[
+    Spec { name: "join(join2,join[2],leaf)", needs_alloc: false, tree: || N(Join, vec![n2(Join), n2(Join), L]) },
+    Spec { name: "merge(merge2,chain2)", needs_alloc: false, tree: || N(Merge, vec![n2(Merge), n2(Chain)]) },
+    Spec { name: "zip(merge2,merge[2])", needs_alloc: false, tree: || N(Zip, vec![n2(Merge), n2(Merge)]) },
+    Spec { name: "race(join2,join2)", needs_alloc: false, tree: || N(Race, vec![n2(Join), n2(Join)]) },
+    Spec { name: "race_ok[try_join2,try_join2]", needs_alloc: false, tree: || N(RaceOk, vec![n2(TryJoin), n2(TryJoin)]) },
+    Spec { name: "try_join(try_join[2],leaf)", needs_alloc: false, tree: || N(TryJoin, vec![n2(TryJoin), L]) },
+    Spec { name: "chain(merge2,zip2)", needs_alloc: false, tree: || N(Chain, vec![n2(Merge), n2(Zip)]) },
+    Spec { name: "merge[zip2,zip2]", needs_alloc: false, tree: || N(Merge, vec![n2(Zip), n2(Zip)]) },
+    Spec { name: "join[race2,race2]", needs_alloc: false, tree: || N(Join, vec![n2(Race), n2(Race)]) },
+    Spec { name: "wait_until(join2,deadline)", needs_alloc: false, tree: || N(WaitUntilF, vec![n2(Join), L]) },
+    Spec { name: "zip(chain2,merge2)", needs_alloc: false, tree: || N(Zip, vec![n2(Chain), n2(Merge)]) },
+    Spec { name: "join vec[join vec2,join vec3]", needs_alloc: true, tree: || N(Join, vec![n2(Join), N(Join, vec![L, L, L])]) },
+    Spec { name: "merge vec[merge vec2,merge vec2]", needs_alloc: true, tree: || N(Merge, vec![n2(Merge), n2(Merge)]) },
+    Spec { name: "FutureGroup{join2,join2,join[2]}", needs_alloc: true, tree: || N(FutGroup, vec![n2(Join), n2(Join), n2(Join)]) },
+    Spec { name: "StreamGroup{merge2,merge2}", needs_alloc: true, tree: || N(StreamGroup, vec![n2(Merge), n2(Merge)]) },
+    Spec { name: "merge(FutureGroup{2},FutureGroup{2})", needs_alloc: true, tree: || N(Merge, vec![n2(FutGroup), n2(FutGroup)]) },
+    Spec { name: "zip vec[StreamGroup{2},merge vec2]", needs_alloc: true, tree: || N(Zip, vec![n2(StreamGroup), n2(Merge)]) },
+];
+
+pub fn name(kind: u32) -> &'static str {
+    SPECS[kind as usize].name
+}
+
+fn leaf_is_stream(parent: Family, pos: usize) -> bool {
+    match parent {
+        Merge | Zip | Chain | StreamGroup => true,
+        WaitUntilS => pos == 0,
+        _ => false,
+    }
+}
+
+fn usable(kind: usize, _p: &Profile) -> bool {
+    // Every oracle that runs on nested shapes (C01, C02, C03, C16, C20) decides per node whether its
+    // rule applies to that node's family, so every shape is usable by every such property.
+    !(SPECS[kind].needs_alloc && cfg!(feature = "cfg-nostd"))
 }
 
 pub fn plan(w: &mut World, p: &Profile) -> Plan {
-    crate::gen::flat(w, p)
+    let cands: Vec<usize> = (0..SPECS.len()).filter(|&k| usable(k, p)).collect();
+    if cands.is_empty() {
+        return crate::gen::flat(w, p);
+    }
+    let kind = cands[w.ch.draw("nested.kind", cands.len() as u32) as usize];
+    let tree = (SPECS[kind].tree)();
+    let mut leaves = Vec::new();
+    let err_bias = w.ch.draw("err.bias", 5) + 1;
+    fn walk(w: &mut World, p: &Profile, t: &T, parent: Family, pos: usize, err_bias: u32, out: &mut Vec<LeafPlan>) {
+        match t {
+            L => {
+                let lp = if leaf_is_stream(parent, pos) {
+                    stream_script(w, p, true)
+                } else {
+                    fut_script(w, matches!(parent, TryJoin | RaceOk), p, false, err_bias)
+                };
+                out.push(lp);
+            }
+            N(f, kids) => {
+                for (i, k) in kids.iter().enumerate() {
+                    walk(w, p, k, *f, i, err_bias, out);
+                }
+            }
+        }
+    }
+    walk(w, p, &tree, Leaf, 0, err_bias, &mut leaves);
+    let cancel_at = if p.allow_cancel && w.ch.draw("cancel", 4) == 3 { Some(w.ch.draw("cancel.at", 6)) } else { None };
+    Plan { shape: Shape::Nested { kind: kind as u32 }, leaves, cancel_at, max_yields: u32::MAX, distinguished: None }
 }
 
-pub fn build(_kind: u32, _plan: &Plan) -> Box<dyn Root> {
-    unimplemented!()
+/// Node ids of a built tree: inner combinator nodes and leaves, both in DFS order.
+struct Ids {
+    inner: Vec<NodeId>,
+    leaf: Vec<NodeId>,
+}
+
+fn make_nodes(w: &mut World, tree: &T, plan: &Plan) -> Ids {
+    let mut ids = Ids { inner: Vec::new(), leaf: Vec::new() };
+    fn walk(w: &mut World, t: &T, parent: NodeId, pfam: Family, pos: usize, plan: &Plan, ids: &mut Ids) {
+        match t {
+            L => {
+                let lp = &plan.leaves[ids.leaf.len()];
+                let id = w.new_leaf(parent, lp.script.clone(), lp.term, leaf_is_stream(pfam, pos), matches!(pfam, TryJoin | RaceOk));
+                if matches!(pfam, FutGroup | StreamGroup) {
+                    w.node_mut(id).key = Some(pos);
+                }
+                ids.leaf.push(id);
+            }
+            N(f, kids) => {
+                let id = w.new_node(parent, *f);
+                if parent != NO_NODE {
+                    ids.inner.push(id);
+                    if matches!(pfam, FutGroup | StreamGroup) {
+                        w.node_mut(id).key = Some(pos);
+                    }
+                    w.node_mut(id).fallible = matches!(pfam, TryJoin | RaceOk);
+                    w.node_mut(id).is_stream = leaf_is_stream(pfam, pos);
+                }
+                for (i, k) in kids.iter().enumerate() {
+                    walk(w, k, id, *f, i, plan, ids);
+                }
+            }
+        }
+    }
+    walk(w, tree, NO_NODE, Leaf, 0, plan, &mut ids);
+    ids
+}
+
+fn f(n: NodeId) -> SimFut<Val> {
+    SimFut::new(n)
+}
+fn tf(n: NodeId) -> SimFut<Result<Val, Val>> {
+    SimFut::new(n)
+}
+fn st(n: NodeId) -> SimStream {
+    SimStream::new(n)
+}
+/// future probe around a pinned inner future
+macro_rules! fp {
+    ($node:expr, $inner:expr) => {
+        Probe::new($node, Box::pin($inner))
+    };
+}
+/// stream probe around a pinned inner stream
+macro_rules! sp {
+    ($node:expr, $inner:expr) => {
+        SProbe::new($node, Box::pin($inner))
+    };
+}
+
+pub fn build(kind: u32, plan: &Plan) -> Box<dyn Root> {
+    let tree = (SPECS[kind as usize].tree)();
+    let ids = with(|w| {
+        let ids = make_nodes(w, &tree, plan);
+        w.model.flat = false;
+        w.emit(Ev::RootCreated { fam: w.node(ROOT).fam });
+        ids
+    });
+    let (i, l) = (&ids.inner, &ids.leaf);
+    match kind {
+        0 => FutRoot::new(Join::join((
+            fp!(i[0], Join::join((f(l[0]), f(l[1])))),
+            fp!(i[1], Join::join([f(l[2]), f(l[3])])),
+            f(l[4]),
+        ))),
+        1 => StreamRoot::new(Merge::merge((
+            sp!(i[0], Merge::merge((st(l[0]), st(l[1])))),
+            sp!(i[1], Chain::chain((st(l[2]), st(l[3])))),
+        ))),
+        2 => StreamRoot::new(Zip::zip((
+            sp!(i[0], Merge::merge((st(l[0]), st(l[1])))),
+            sp!(i[1], Merge::merge([st(l[2]), st(l[3])])),
+        ))),
+        3 => FutRoot::new(Race::race((
+            fp!(i[0], Join::join((f(l[0]), f(l[1])))),
+            fp!(i[1], Join::join((f(l[2]), f(l[3])))),
+        ))),
+        4 => AggRoot::new(RaceOk::race_ok([
+            fp!(i[0], TryJoin::try_join((tf(l[0]), tf(l[1])))),
+            fp!(i[1], TryJoin::try_join((tf(l[2]), tf(l[3])))),
+        ])),
+        5 => FutRoot::new(TryJoin::try_join((
+            fp!(i[0], TryJoin::try_join([tf(l[0]), tf(l[1])])),
+            tf(l[2]),
+        ))),
+        6 => StreamRoot::new(Chain::chain((
+            sp!(i[0], Merge::merge((st(l[0]), st(l[1])))),
+            sp!(i[1], Zip::zip((st(l[2]), st(l[3])))),
+        ))),
+        7 => StreamRoot::new(Merge::merge([
+            sp!(i[0], Zip::zip((st(l[0]), st(l[1])))),
+            sp!(i[1], Zip::zip((st(l[2]), st(l[3])))),
+        ])),
+        8 => FutRoot::new(Join::join([
+            fp!(i[0], Race::race((f(l[0]), f(l[1])))),
+            fp!(i[1], Race::race((f(l[2]), f(l[3])))),
+        ])),
+        9 => FutRoot::new(fp!(i[0], Join::join((f(l[0]), f(l[1])))).wait_until(SimFut::<()>::new(l[2]))),
+        10 => StreamRoot::new(Zip::zip((
+            sp!(i[0], Chain::chain((st(l[0]), st(l[1])))),
+            sp!(i[1], Merge::merge((st(l[2]), st(l[3])))),
+        ))),
+        #[cfg(not(feature = "cfg-nostd"))]
+        k => build_alloc(k, &ids),
+        #[cfg(feature = "cfg-nostd")]
+        k => unreachable!("nested shape {k} needs alloc"),
+    }
+}
+
+#[cfg(not(feature = "cfg-nostd"))]
+fn build_alloc(kind: u32, ids: &Ids) -> Box<dyn Root> {
+    use futures_concurrency::future::FutureGroup;
+    use futures_concurrency::stream::StreamGroup;
+    let (i, l) = (&ids.inner, &ids.leaf);
+    let key_check = |node: NodeId, got: usize| {
+        with(|w| {
+            if w.node(node).key != Some(got) {
+                // keys are slab indices; with static membership they are 0,1,2,.. in insertion order.
+                // If an implementation hands out other keys the C16 same-key exemption must follow it.
+                w.node_mut(node).key = Some(got);
+            }
+        })
+    };
+    match kind {
+        11 => FutRoot::new(Join::join(vec![
+            fp!(i[0], Join::join(vec![f(l[0]), f(l[1])])),
+            fp!(i[1], Join::join(vec![f(l[2]), f(l[3]), f(l[4])])),
+        ])),
+        12 => StreamRoot::new(Merge::merge(vec![
+            sp!(i[0], Merge::merge(vec![st(l[0]), st(l[1])])),
+            sp!(i[1], Merge::merge(vec![st(l[2]), st(l[3])])),
+        ])),
+        13 => {
+            let mut g = FutureGroup::new();
+            with(|w| w.in_group_op = true);
+            let k0 = g.insert(fp!(i[0], Join::join((f(l[0]), f(l[1])))));
+            let k1 = g.insert(fp!(i[1], Join::join((f(l[2]), f(l[3])))));
+            // third member is an array join boxed to the same type: use tuple join too (same type needed)
+            let k2 = g.insert(fp!(i[2], Join::join((f(l[4]), f(l[5])))));
+            with(|w| w.in_group_op = false);
+            for (n, k) in [(i[0], k0), (i[1], k1), (i[2], k2)] {
+                key_check(n, crate::group::key_index(&k));
+            }
+            StreamRoot::new(g)
+        }
+        14 => {
+            let mut g = StreamGroup::new();
+            with(|w| w.in_group_op = true);
+            let k0 = g.insert(sp!(i[0], Merge::merge((st(l[0]), st(l[1])))));
+            let k1 = g.insert(sp!(i[1], Merge::merge((st(l[2]), st(l[3])))));
+            with(|w| w.in_group_op = false);
+            for (n, k) in [(i[0], k0), (i[1], k1)] {
+                key_check(n, crate::group::key_index(&k));
+            }
+            StreamRoot::new(g)
+        }
+        15 => {
+            let mk = |a: NodeId, b: NodeId| {
+                let mut g = FutureGroup::new();
+                let ka = g.insert(f(a));
+                let kb = g.insert(f(b));
+                key_check(a, crate::group::key_index(&ka));
+                key_check(b, crate::group::key_index(&kb));
+                g
+            };
+            with(|w| w.in_group_op = true);
+            let g0 = mk(l[0], l[1]);
+            let g1 = mk(l[2], l[3]);
+            with(|w| w.in_group_op = false);
+            StreamRoot::new(Merge::merge((sp!(i[0], g0), sp!(i[1], g1))))
+        }
+        16 => {
+            let mut g = StreamGroup::new();
+            with(|w| w.in_group_op = true);
+            let ka = g.insert(st(l[0]));
+            let kb = g.insert(st(l[1]));
+            with(|w| w.in_group_op = false);
+            key_check(l[0], crate::group::key_index(&ka));
+            key_check(l[1], crate::group::key_index(&kb));
+            // both zip inputs must have the same type: box them as trait objects
+            type Dyn = std::pin::Pin<Box<dyn futures_core::Stream<Item = Val>>>;
+            let a: Dyn = Box::pin(sp!(i[0], g));
+            let b: Dyn = Box::pin(sp!(i[1], Merge::merge(vec![st(l[2]), st(l[3])])));
+            StreamRoot::new(Zip::zip(vec![a, b]))
+        }
+        k => unreachable!("no nested shape {k}"),
+    }
 }
